@@ -106,8 +106,10 @@ F_EXACT1 = {"sin": None, "cos": None, "tan": None, "arcsin": lambda x: -1 <= x <
             "log10": lambda x: x > 0, "log1p": lambda x: x > -1, "sqrt": lambda x: x >= 0, "cbrt": None, "ceil": None, "floor": None, "trunc": None, "rint": None, "fabs": None,
             "reciprocal": lambda x: x != 0, "square": None, "negative": None, "positive": None, "isfinite": None, "isinf": None, "isnan": None, "signbit": None}
 F_APPROX1 = {"deg2rad": [], "radians": [], "rad2deg": [], "degrees": [], "relu": [], "relu6": [], "sigmoid": [], "silu": [], "log_sigmoid": [], "softsign": [], "tanhshrink": [], "mish": [],
-             "hardswish": [], "selu": [], "elu": [[], [0.5]], "celu": [[], [2.0]], "leaky_relu": [[], [0.25]], "prelu": [[], [0.5]], "hardshrink": [[], [1.0]], "softshrink": [[], [1.0]],
-             "hardtanh": [[], [-0.5, 1.5]], "softplus": [[], [2.0, 3.0]]}
+             "hardswish": [], "selu": [], "elu": [[], [0.5], [2.5]], "celu": [[], [2.0], [0.5]], "leaky_relu": [[], [0.25], [2.0], [-0.5]], "prelu": [[], [0.5], [1.5], [-0.5]],
+             "hardshrink": [[], [1.0], [0.25]], "softshrink": [[], [1.0], [0.25]], "hardtanh": [[], [-0.5, 1.5], [1.0, 3.0]], "softplus": [[], [2.0, 3.0], [0.5, 1.0]]}
+# parameter menus take values on both sides of every regime boundary of the formula (slope below / above 1 and negative, threshold above / below
+# the data range, clamp interval containing / excluding 0): a shortcut such as max(x, slope*x) is right for one regime only (seed C07c)
 F_EXACT2 = {"arctan2": None, "hypot": None, "power": lambda x, y: x > 0, "fmod": lambda x, y: y != 0, "fmin": None, "fmax": None, "maximum": None, "minimum": None,
             "add": None, "subtract": None, "multiply": None, "divide": lambda x, y: y != 0, "ldexp": None}
 
